@@ -100,7 +100,7 @@ let cmd_utf8 () =
 let read_tables file =
   let ic = open_in file in
   let line () = words (input_line ic) in
-  let errt = (match line () with ["E"; e] -> int_of_string e | _ -> failwith "E") in
+  let (errt, gate) = (match line () with ["E"; e] -> (int_of_string e, false) | ["E"; e; g] -> (int_of_string e, g = "1") | _ -> failwith "E") in
   let np = (match line () with ["P"; n] -> int_of_string n | _ -> failwith "P") in
   let prods = List.init np (fun _ -> match List.map int_of_string (line ()) with
     | [nt; len; a] -> { p_nt = nat_of_int nt; p_len = nat_of_int len; p_act = (a = 1) }
@@ -119,7 +119,7 @@ let read_tables file =
        | [] -> failwith "row")
     | _ -> failwith "row") in
   close_in ic;
-  { t_states = states; t_prods = prods; t_err = nat_of_int errt }
+  { t_states = states; t_prods = prods; t_err = nat_of_int errt; t_gate = gate }
 
 let rec show_attr a =
   match a with
